@@ -955,14 +955,14 @@ Proof. unfold nanos6_ids. cbn [In]. intros [H|[H|[H|[]]]]; now injection H as _ 
 Lemma nosv_ids_inj f f' m i : In (f, m, i) nosv_ids -> In (f', m, i) nosv_ids -> f = f'.
 Proof.
   unfold nosv_ids. cbn [In].
-  intros [H|[H|[H|[H|[H|[]]]]]] [H'|[H'|[H'|[H'|[H'|[]]]]]]; injection H as <- <- <-; injection H' as <- _ E; try reflexivity;
-    vm_compute in E; discriminate E.
+  intros [H|[H|[H|[H|[H|[]]]]]] [H'|[H'|[H'|[H'|[H'|[]]]]]]; injection H as <- <- <-; injection H'; intros; subst; try reflexivity;
+    exfalso; vm_compute in H'; discriminate H'.
 Qed.
 Lemma nanos6_ids_inj f f' m i : In (f, m, i) nanos6_ids -> In (f', m, i) nanos6_ids -> f = f'.
 Proof.
   unfold nanos6_ids. cbn [In].
-  intros [H|[H|[H|[]]]] [H'|[H'|[H'|[]]]]; injection H as <- <- <-; injection H' as <- _ E; try reflexivity;
-    vm_compute in E; discriminate E.
+  intros [H|[H|[H|[]]]] [H'|[H'|[H'|[]]]]; injection H as <- <- <-; injection H'; intros; subst; try reflexivity;
+    exfalso; vm_compute in H'; discriminate H'.
 Qed.
 
 Lemma dumped_fields_ok : forallb (fun en => forallb field_spec_okb (mk_chans en)) (sublists all_models) = true.
@@ -979,7 +979,7 @@ Proof.
   apply NoDup_cons_iff in N as [Nn Nr]. constructor; [|apply IH; [intros x Hx; apply Hi; now right|exact Nr]].
   intros Hin. apply in_map_iff in Hin as ([f' k'] & E & Hin). cbn [snd] in E. subst k'.
   assert (Hl : incl l ids) by (intros x Hx; apply Hi; now right).
-  assert (Hfl : ids_found (s_chans sx) l) by (intros a b c Habc; apply Hf; now apply Hl).
+  assert (Hfl : ids_found (s_chans sx) l) by (intros a b c Habc; apply (Hf a b c); now apply Hl).
   destruct (ids_chan sx l f' _ Hfl Hin) as (m' & i' & Hin' & _ & Em & Ei).
   assert (H0 : In (f, m, i) ids) by (apply Hi; now left).
   pose proof (Hf _ _ _ H0) as Hfound. destruct (chan_of_found sx m i Hfound) as [Em0 Ei0].
